@@ -72,6 +72,25 @@ fn locked_cached(sk: &[u8; 32], w: &[u8], salt: &[u8; 32]) -> String {
 }
 fn region(byte: usize) -> &'static str { if byte < 4 { "version" } else if byte < 36 { "salt" } else if byte < 68 { "ciphertext" } else { "tag" } }
 
+/// The key commands read the password from the environment: bytes that are not UTF-8 are either refused or kept apart
+/// (a key locked under one byte string must not unlock under another).
+#[derive(Clone, Debug, Serialize, Deserialize)]
+pub struct EnvKey { pub a: Vec<u8>, pub b: Vec<u8> }
+pub fn check_env_key(c: &EnvKey) -> CheckResult {
+    use crate::cli::{In, Sandbox};
+    if c.a == c.b || gen::hmac_equiv(&c.a, &c.b) || c.a.contains(&0) || c.b.contains(&0) { return ok(false, "skipped"); }
+    let sb = Sandbox::new();
+    let mut g = sb.cmd(&["key", "generate", "-o", "k.txt", "--env-pass"]).stdin(In::Bytes(b"me\n".to_vec())); g.env_os.push(("KESTREL_PASSWORD".into(), c.a.clone()));
+    let r = g.run(); ensure!(matches!(r.code, Some(0) | Some(1)) && r.signal.is_none(), "abnormal end: {}", r.describe());
+    if r.code == Some(1) { ensure!(sb.read("k.txt").is_none(), "a refused password still produced a key file"); return ok(true, "env-key/refused"); }
+    let text = String::from_utf8(sb.read("k.txt").ok_or("no key file")?).map_err(|e| e.to_string())?;
+    let locked = text.lines().find_map(|l| l.strip_prefix("PrivateKey = ")).ok_or("no PrivateKey line")?.to_string();
+    let mut x = sb.cmd(&["key", "extract-pub", &locked, "--env-pass"]); x.env_os.push(("KESTREL_PASSWORD".into(), c.b.clone()));
+    let r2 = x.run();
+    ensure!(r2.code == Some(1) && !r2.stdout_s().contains("PublicKey"), "a key generated under the password bytes {} was unlocked by `key extract-pub` under the different bytes {}", kspec::hex(&c.a), kspec::hex(&c.b));
+    ok(true, "env-key/distinguished")
+}
+
 pub fn run(ctx: &Ctx) {
     set_rule("C15", "(32-byte key, password from the C02 domain, salt): lock == specification lock (string equality), unlock(lock) = key, generated wrong passwords rejected (HMAC-equivalent spellings excluded); single-bit flips of the 84-byte blob re-encoded to base64 (all 32 version bits, sampled/all salt, ciphertext and tag bits) must be rejected by try_from or unlock; strings of every length 0..130 over base64 / non-base64 / Unicode alphabets and 112-character strings with one character replaced must be rejected or fail to unlock, never panic. Non-trivial = flip outside the version field, password empty / non-ASCII / > 64 bytes, or non-empty malformed string; distinct by hash of the case / enumeration index");
     ctx.assume("kspec::lock_private_key is the documented format (docs/file-format.txt) built on RFC 7914/8439 code validated at start-up");
@@ -94,5 +113,6 @@ pub fn run(ctx: &Ctx) {
     for k in 0..40u8 { let v = kspec::lock_private_key_with(&[k; 32], &[k.wrapping_mul(7); 32], &[k.wrapping_add(3); 32]); if v.contains('+') || v.contains('/') { mal.push(Case::Malformed { s: v.replace('+', "-").replace('/', "_") }); mal.push(Case::Malformed { s: v.replace('+', "-") }); mal.push(Case::Malformed { s: v.replace('/', "_") }); mal.push(Case::Malformed { s: v.replace('+', ".").replace('/', ",") }); } let mut w = v.clone(); w.insert_str(76, "\r\n"); mal.push(Case::Malformed { s: w }); }
     mal.push(Case::Malformed { s: format!("{}=", valid) }); mal.push(Case::Malformed { s: format!("{}====", valid) }); mal.push(Case::Malformed { s: format!(" {}", valid) }); mal.push(Case::Malformed { s: format!("{}\n", valid) });
     ctx.sse_vec("malformed_strings", "every length 0..=130 x 6 alphabets; every position of a valid 112-character string x 8 replacement characters; padding/whitespace variants", mal, check);
+    ctx.sse_vec("cli_env_password_bytes", "key generate under non-UTF-8 password bytes A, extract-pub under different bytes B: refused or told apart", vec![(b"caf\xe9".to_vec(), b"caf\xe8".to_vec()), (vec![0xff], vec![0xfe]), (vec![0xff], "\u{fffd}".as_bytes().to_vec()), (b"pw\x80".to_vec(), b"pw\x81".to_vec())].into_iter().map(|(a, b)| EnvKey { a, b }).collect(), check_env_key);
     ctx.pbt("malformed_random", ctx.n(20_000, 500_000), || prop_oneof![12 => "[A-Za-z0-9+/=]{0,130}", 12 => "\\PC{0,60}", 12 => "[A-Za-z0-9+/]{112}", 1 => "ZWdrM[A-Za-z0-9+/]{107}"].prop_map(|s| Case::Malformed { s }), check);
 }
